@@ -222,8 +222,24 @@ func (sf *sentinelFlow) carries(v ssa.Value) bool {
 				found = true
 			}
 		}
+		// a sentinel of a dependency (nats.ErrTimeout, raft.ErrNotLeader) is produced by calls into that dependency
+		if sf.S.Pkg != nil && !ir.InModule(sf.S.Pkg.Pkg.Path()) {
+			if pkg := calleePkgPath(&call.Call); pkg != "" && pkg == sf.S.Pkg.Pkg.Path() {
+				found = true
+			}
+		}
 	})
 	return found
+}
+
+func calleePkgPath(cc *ssa.CallCommon) string {
+	if f := cc.StaticCallee(); f != nil && f.Pkg != nil {
+		return f.Pkg.Pkg.Path()
+	}
+	if cc.IsInvoke() && cc.Method != nil && cc.Method.Pkg() != nil {
+		return cc.Method.Pkg().Path()
+	}
+	return ""
 }
 
 // unwraps reports whether fn looks through wrapping for this sentinel: it compares Cause(x) with it, or asks errors.Is.
